@@ -557,6 +557,21 @@ func allKinds() []kind {
 			c.obj.StorageProof[0].Key = hexutil.Encode(crypto.Keccak256(common.FromHex(c.obj.StorageProof[0].Key)))
 			return c
 		}},
+		{"key/overlong-key-of-another-entry", func(g *gen) *caseSpec {
+			// the never-committed packet is claimed with its own commitment; the proof is a genuine proof of ANOTHER storage
+			// entry (key preimage = some bytes || the packet's slot) that holds that value, with that preimage as key field
+			st := g.okState()
+			a := g.w.states[st].accounts[g.w.A]
+			if a == nil || a.storTrie == nil || len(trimZeros(g.w.absent.commit)) == 0 {
+				return nil
+			}
+			c := g.honestCase("", st, ref{p: g.w.absent})
+			sp := c.obj.StorageProof[0]
+			sp.Key = hexutil.Encode(g.w.overlong)
+			sp.Value = hexutil.EncodeBig(new(big.Int).SetBytes(g.w.absent.commit))
+			sp.Proof = hexNodes(prove(a.storTrie, crypto.Keccak256(g.w.overlong)))
+			return c
+		}},
 		{"key/junk-slot-holding-claimed-value", func(g *gen) *caseSpec {
 			// the value sits in a slot derived with another mapping index; the claim's real slot is unwritten
 			// (uses the forged-free approach: claim absent packet, prove a junk slot) – only when junk exists
